@@ -59,7 +59,7 @@ RULE = ('the archive NAME is a regular file or (own sweeps: 4 configurations + 2
         'NOT I/O errors: KeyboardInterrupt, asyncio.CancelledError, SystemExit, MemoryError, ValueError -- quick: the class '
         'rotates with the primitive index and the variant, so every class meets open, write, close, truncate, unlink; '
         'thorough: every class at every primitive; every single-fault run is extended by a second fault/kill at every later primitive '
-        '(thorough: all of them for bodies <= 200 bytes with no / 2 earlier records, 300 sampled per other configuration; '
+        '(thorough: all of them for empty bodies with no / 2 earlier records, 1200 sampled for 200-byte bodies there, 300 per other configuration; '
         'quick: 100 sampled per small configuration) and a sample of third faults. Single kills are real child processes '
         '(os._exit at the primitive); in quick the kills of multi-fault schedules are simulated in-process and the '
         'simulation is compared with the real kill on every single-kill case. Logging: every single fault (and the '
@@ -1756,7 +1756,7 @@ def run(ctx):
         for (compress, bufsize, prior, body_len) in configs(thorough):
             small = body_len <= 1500
             if thorough:
-                doubles = 'all' if (body_len <= 200 and prior in (None, 2)) else 300
+                doubles = 'all' if (body_len == 0 and prior in (None, 2)) else (1200 if (body_len <= 200 and prior in (None, 2)) else 300)
             else:
                 doubles = ctx.scale(100, 100) if small else 0
             sweep(ctx, compress, bufsize, prior, body_len, rng.randrange(1000), doubles, rng,
@@ -1774,7 +1774,7 @@ def run(ctx):
         ctx.sample({'stream': 'kill', 'example': base_case('kill', False, None, 3, 9000, 0, {6: ('die', 100)})})
         ctx.note('fault_positions', 'every raw primitive of the fault-free run of every configuration gets OSError and a '
                  'kill (writes: 5 partial amounts); second faults at every later primitive: %s'
-                 % ('exhaustive for bodies <= 200 bytes with no / 2 earlier records, 300 per other configuration; all kills real'
+                 % ('exhaustive for empty bodies with no / 2 earlier records, 1200 sampled for 200-byte bodies there, 300 per other configuration; all kills real'
                     if thorough else 'sampled (100 per configuration), kills of multi-fault schedules simulated in-process'))
         ctx.exhaustive = False
     finally:
